@@ -111,7 +111,7 @@ def check_c11(tier, seed):
         for f in files:
             s = open(f).read().replace('"e2e/rt"', '"demo/rt"')
             open(f, "w").write(s)
-        targets = [["app/kessoku.go", "app/second.go"], ["app/second.go", "app/kessoku.go"]] + [[os.path.relpath(f, M.root)] for f in files[:3]] + [[os.path.relpath(f, M.root) for f in files]]
+        targets = [["app/kessoku.go", "app/second.go"], ["app/second.go", "app/kessoku.go"]] + [[os.path.relpath(f, M.root)] for f in files[:3]] + [[os.path.relpath(f, M.root) for f in files[:8]]]      # (one invocation loads the package once per file)
         env = M.env()
         def gen(tg, extra=None):
             nonlocal runs
@@ -119,7 +119,7 @@ def check_c11(tier, seed):
             if extra:
                 e.update(extra)
             runs += 1
-            return C.run([cli] + tg, cwd=M.root, extra_env=e, timeout=600)
+            return C.run([cli] + tg, cwd=M.root, extra_env=e, timeout=1800)
         def outs(tg):
             return [os.path.join(M.root, t[:-3] + "_band.go") for t in tg]
         def clean():
